@@ -192,3 +192,17 @@ Example map_show_nonvacuous :
   /\ texts nat ex_render ex_show table_open (cons 9 nil) <> None /\ texts nat ex_render ex_show table_close nil <> None.
 Proof. exact (conj (proj1 FormatProofs.ex_table_bundle) (conj (proj1 (proj2 FormatProofs.ex_table_bundle))
         (conj (proj1 (proj2 (proj2 FormatProofs.ex_table_bundle))) (proj1 (proj2 (proj2 (proj2 FormatProofs.ex_table_bundle))))))). Qed.
+
+(* the format strings of the built-in Show functions (taken from the C source on every run) are texts of
+   well-formed item lists with the loop shape show_seq / show_map encode: the two container theorems
+   apply to Array, List, Tuple, Table and Tree, and %$ of an Int / a Float is "%li" / "%f" of its C value *)
+Theorem builtin_show_formats_wellformed :
+  (show_format_ok array_open array_show_open /\ show_format_ok array_close array_show_close /\ array_show_shape_ok = true)
+  /\ (show_format_ok list_open list_show_open /\ show_format_ok array_close list_show_close /\ list_show_shape_ok = true)
+  /\ (show_format_ok tuple_open tuple_show_open /\ show_format_ok tuple_close tuple_show_close /\ tuple_show_shape_ok = true)
+  /\ (show_format_ok table_open table_show_open /\ show_format_ok table_close table_show_close /\ table_show_shape_ok = true)
+  /\ (show_format_ok tree_open tree_show_open /\ show_format_ok table_close tree_show_close /\ tree_show_shape_ok = true)
+  /\ (show_format_ok int_show_items int_show_fmt /\ conv_kind 105 = KInt)
+  /\ (show_format_ok float_show_items float_show_fmt /\ conv_kind 102 = KFloat).
+Proof. exact FormatProofs.builtin_show_formats. Qed.
+Print Assumptions builtin_show_formats_wellformed.
